@@ -1051,6 +1051,7 @@ def check_fresh_id(program, rep):
     exits = w.run(f, world)
     nauto = 0
     bad = None
+    unsure = None
     for ex in exits:
         if ex.kind != 'return' or ex.payload is None:
             continue
@@ -1070,7 +1071,27 @@ def check_fresh_id(program, rep):
                     and ident in e.target.text:
                 break
         if not proved:
-            bad = ex
+            # the id was tested through some other query of the world
+            # (`self.get_components(id)`, ...): whether that answers "no row"
+            # rests on invariants of the tables this rule does not carry -
+            # except entity_exists(), which is known to deny pending entities
+            other = [e for e in ex.state.trace if e.kind == 'cond'
+                     and e.extra is False and ident in e.sym.text
+                     and ((e.sym.text.startswith('self.')
+                           and '(' in e.sym.text
+                           and not e.sym.text.startswith(
+                               'self.entity_exists('))
+                          or (E in e.sym.text and 'self._dead_entities'
+                              not in e.sym.text))]
+            if other:
+                unsure = other[0]
+            else:
+                bad = ex
+    if unsure is not None and bad is None:
+        rep.inconclusive('C01.fresh-id', f.where, unsure.node,
+                         f'the automatic id is tested with {unsure.sym.text}: '
+                         'that this is false exactly when the id has no row '
+                         'is not decided here')
     if nauto == 0:
         rep.inconclusive('C01.fresh-id', f.where, f.node.name,
                          'no path returns an id drawn from the generator')
